@@ -24,6 +24,7 @@ type Profile struct {
 	PRollout, PExperiment                     float64
 	PMalformed                                float64
 	PDocNoise                                 float64
+	PShuffle                                  float64 // key order of every object shuffled (semantics-preserving)
 	PBoundary                                 float64
 	PLongStrings                              float64
 	Chain                                     int     // >0: build a prerequisite/segment chain of up to this depth
@@ -41,7 +42,7 @@ var allOps = []string{"in", "endsWith", "startsWith", "matches", "contains", "le
 func baseProfile(name string) Profile {
 	return Profile{Name: name, PInvalidCtx: 0.03, PMulti: 0.3, PLegacy: 0.15, MinFlags: 0, MaxFlags: 5, MinSegs: 0, MaxSegs: 4,
 		PPrereq: 0.35, MaxPrereq: 3, PTargets: 0.3, PCtxTargets: 0.25, MaxRules: 3, MaxClauses: 3, PSegmentOp: 0.25,
-		PBigSeg: 0.25, PRollout: 0.35, PExperiment: 0.4, PMalformed: 0.08, PDocNoise: 0.2, PBoundary: 0.3,
+		PBigSeg: 0.25, PRollout: 0.35, PExperiment: 0.4, PMalformed: 0.08, PDocNoise: 0.2, PShuffle: 0.3, PBoundary: 0.3,
 		PLongStrings: 0.03, POff: 0.15, Ops: allOps, PKindAttr: 0.08, PSecondaryOpt: 0.4, PLoggerOpt: 0.7,
 		PRecorderOpt: 0.8, PForm0: 0.3, PDegenerateWeights: 0.15}
 }
@@ -485,15 +486,15 @@ func (w *World) genRollout(flagKey, salt string, nvars int) *J {
 		ro.Set("contextKind", JStr(kind))
 	}
 	var seed *int64
-	if r.P(0.25) {
-		s := int64(r.Pick2([]int64{0, 61, -7, 123456789, 9007199254740992}))
+	if r.P(0.35) {
+		s := int64(r.Pick2([]int64{0, 0, 61, -7, 123456789, 9007199254740992}))
 		seed = &s
 	}
 	bucketBy := ""
 	if r.P(0.3) {
 		bucketBy = r.Pick([]string{"email", "age", "score", "name", "key", "tags", "nested", "beta"})
-		if kind != "" && r.P(0.3) {
-			bucketBy = r.Pick([]string{"/email", "/nested/a/b", "/age"})
+		if kind != "" && r.P(0.5) {
+			bucketBy = r.Pick([]string{"/email", "/nested/a/b", "/age", "/name"})
 		}
 		if r.P(p.PMalformed) {
 			bucketBy = r.Pick([]string{"//", "/a~2", "/"})
@@ -731,15 +732,18 @@ func (w *World) genSegment(key string) *J {
 			bucketBy := ""
 			if r.P(0.3) {
 				bucketBy = r.Pick([]string{"email", "age", "name", "score"})
+				if kind != "" && r.P(0.4) {
+					bucketBy = r.Pick([]string{"/email", "/age", "/nested/a/b", "/name"})
+				}
 				if r.P(p.PMalformed) {
 					bucketBy = r.Pick([]string{"//", "/a~2"})
 				}
 			}
 			var wt int64
-			if b, ok := w.bucketOf(false, nil, kind, key, bucketBy, salt); ok && r.P(p.PBoundary+0.2) {
+			if b, ok := w.bucketOf(false, nil, kind, key, bucketBy, salt); ok && r.P(math.Min(p.PBoundary+0.2, 0.7)) {
 				wt = int64(float64(b)*100000) + int64(r.Range(-1, 1))
 			} else {
-				wt = r.Pick2([]int64{0, 1, 50000, 100000, 99999, -1, 30000})
+				wt = r.Pick2([]int64{0, 0, 1, 50000, 100000, 99999, -1, 30000})
 			}
 			ru.Set("weight", JInt(wt))
 			if bucketBy != "" {
@@ -867,6 +871,29 @@ func (w *World) noise(doc *J, depth int) {
 	}
 }
 
+// shuffleKeys permutes the members of every object (not inside free-form values): any key-sorting or map-based
+// encoder produces such documents.
+func (w *World) shuffleKeys(doc *J, depth int) {
+	switch doc.K {
+	case 'a':
+		for _, x := range doc.A {
+			w.shuffleKeys(x, depth+1)
+		}
+	case 'o':
+		for i := range doc.O {
+			k := doc.O[i].K
+			if k == "values" || k == "variations" && depth == 0 || k == "attrs" {
+				continue
+			}
+			w.shuffleKeys(doc.O[i].V, depth+1)
+		}
+		for i := len(doc.O) - 1; i > 0; i-- {
+			j := w.r.Intn(i + 1)
+			doc.O[i], doc.O[j] = doc.O[j], doc.O[i]
+		}
+	}
+}
+
 // GenEval produces one evaluation case.
 func GenEval(r *Rng, p *Profile) *EvalCase {
 	w := &World{r: r, p: p}
@@ -883,7 +910,7 @@ func GenEval(r *Rng, p *Profile) *EvalCase {
 		if r.P(0.15) {
 			return 2
 		}
-		if r.P(0.2) {
+		if r.P(0.3) {
 			return 4
 		}
 		return 1
@@ -919,6 +946,18 @@ func GenEval(r *Rng, p *Profile) *EvalCase {
 			}
 		}
 		c.Prov.Default = w.genAnswer()
+	}
+	if r.P(p.PShuffle) {
+		docs := []*J{c.Top.Doc}
+		for i := range c.Flags {
+			docs = append(docs, c.Flags[i].Doc)
+		}
+		for i := range c.Segs {
+			docs = append(docs, c.Segs[i].Doc)
+		}
+		for _, d := range docs {
+			w.shuffleKeys(d, 0)
+		}
 	}
 	if r.P(p.PDocNoise) {
 		w.noise(c.Top.Doc, 0)
